@@ -55,7 +55,7 @@ MANIFEST = {
 EXPLANATION = MANIFEST["level_text"]
 TRUSTED = [
     "pyvc VC generator and its encoding of Python ints/str/bytes/lists/tuples (DESIGN §3.1)",
-    "z3 5.1.0 / cvc5 1.0.3",
+    "z3 5.1.0 / cvc5 1.4.0",
     "hashlib.sha256(b).hexdigest() is a deterministic function of b (modelled uninterpreted)",
     "pyarrow: ipc.open_stream(BytesIO(data)) + ValidatedReader.read_next_batch_with_custom_metadata() deliver the batches of the stream encoded in data in order and then raise StopIteration, or raise an error; pa.Schema.__eq__/__ne__ are complementary",
     "_dispatch_log_or_error (C08): True = consumed (log delivered or ignored), False = data batch, decided by the batch and its metadata alone; raises only RpcError or what on_log raised",
